@@ -473,8 +473,8 @@ func (in *Interp) callFn(fn *ssa.Function, args []Value, env []Value) Value {
 	if r, handled := in.intercept(fn, args); handled {
 		return r
 	}
-	if fn.Blocks == nil && fn.Pkg != nil {
-		fn.Pkg.Build()
+	if fn.Pkg != nil {
+		in.E.ensureBuilt(fn.Pkg)
 	}
 	if fn.Blocks == nil {
 		panic(in.abort("unmodelled-external %s", fn.String()))
